@@ -14,17 +14,15 @@ import (
 func defaultHasher[T comparable]() func(T, uint64) uint64 {
 	var zero T
 
-	if reflect.TypeOf(&zero).Elem().Kind() == reflect.Interface {
-		return func(value T, seed uint64) uint64 {
-			iValue := any(value)
-			i := (*iface)(unsafe.Pointer(&iValue))
-			return runtime_typehash64(i.typ, i.word, seed)
-		}
-	} else {
-		var iZero any = zero
-		i := (*iface)(unsafe.Pointer(&iZero))
-		return func(value T, seed uint64) uint64 {
-			return runtime_typehash64(i.typ, unsafe.Pointer(&value), seed)
-		}
+	// Hash every key through the runtime type descriptor of T itself.
+	// For interface kinds the runtime then hashes the dynamic type together
+	// with the dynamic value, exactly like a built-in map does (a nil
+	// interface is a valid key, a pointer held in an interface is hashed
+	// by its address, not through its pointee); for all other kinds it
+	// hashes the key's own memory.
+	rtype := reflect.TypeOf(&zero).Elem()
+	typ := uintptr((*iface)(unsafe.Pointer(&rtype)).word)
+	return func(value T, seed uint64) uint64 {
+		return runtime_typehash64(typ, unsafe.Pointer(&value), seed)
 	}
 }
